@@ -1331,7 +1331,20 @@ void save_option_file(FILE *pfile, bool with_doc, bool minimal)
 
          if (option->type() == OT_STRING)
          {
-            fprintf(pfile, "\"%s\"", val.c_str());
+            // escape what split_args() un-escapes, so that the value reads back unchanged
+            std::string quoted;
+
+            for (const char ch : val)
+            {
+               if (  ch == '\\'
+                  || ch == '"')
+               {
+                  quoted += '\\';
+               }
+               quoted += ch;
+            }
+
+            fprintf(pfile, "\"%s\"", quoted.c_str());
          }
          else
          {
